@@ -33,7 +33,8 @@ def anchors(prop):
     """{function qname} mentioned by the rule instances of a property."""
     import importlib
     ctx = report.Ctx(prop, 'quick', REPO)
-    importlib.import_module('mstatic.rules.%s' % prop.lower()).run(ctx)
+    from mstatic import rules
+    rules.run(ctx)
     out = set()
     for r in ctx.rules:
         for (cons, verdict, note) in r.instances:
